@@ -77,13 +77,30 @@ fn supervise(id: &str, rest: &[String]) -> i32 {
     use std::os::unix::process::ExitStatusExt;
     use std::process::Command;
     let exe = std::env::current_exe().expect("current_exe");
-    let run = |journal: Option<&std::path::Path>| {
+    let run = |journal: Option<&std::path::Path>| -> std::io::Result<std::process::ExitStatus> {
         let mut c = Command::new(&exe);
         c.arg(id).args(rest).arg("--worker");
         if let Some(j) = journal {
             c.env("VERIF_JOURNAL", j).env("VERIF_WORKERS", "1");
         }
-        c.status()
+        // wall-clock limit: a worker that never finishes (a free-running lane that waits for ever) is
+        // reported as inconclusive (exit 2), never as a violation and never as an endless check
+        let thorough = rest.iter().any(|a| a == "thorough") || std::env::var("VERIF_TIER").map(|t| t == "thorough").unwrap_or(false);
+        let limit = std::env::var("VERIF_WALL_LIMIT_S").ok().and_then(|v| v.parse::<u64>().ok()).unwrap_or(if thorough { 6 * 3600 } else { 1800 });
+        let start = std::time::Instant::now();
+        let mut child = c.spawn()?;
+        loop {
+            if let Some(st) = child.try_wait()? {
+                return Ok(st);
+            }
+            if start.elapsed().as_secs() > limit {
+                let _ = child.kill();
+                let _ = child.wait();
+                eprintln!("[{}] worker exceeded the wall-clock limit of {} s (VERIF_WALL_LIMIT_S) and was stopped: inconclusive", id, limit);
+                std::process::exit(2);
+            }
+            std::thread::sleep(std::time::Duration::from_millis(20));
+        }
     };
     let st = match run(None) {
         Ok(st) => st,
